@@ -24,6 +24,14 @@ def base_packet(ver, raw, kind):
         hdr = bytes.fromhex("020000000001" "020000000002") + (b"\x08\x00" if ver == "4" else b"\x86\xdd")
         return Ether(hdr + raw + (b"\x00" * 6 if kind == "p" else b""))
     pkt = scapy_from(ver, raw)
+    if kind == "r":
+        # as dissected, but the application attached an (empty) data layer: IP()/TCP()/Raw(load=b"") - no payload bytes
+        from scapy.layers.inet import TCP
+        from scapy.packet import Raw
+        if not bytes(pkt[TCP].payload):
+            pkt[TCP].remove_payload()
+            pkt = pkt / Raw(load=b"")
+        return pkt
     if kind == "c":
         # built field by field, the IPv4 id left to Scapy's default (1): the generator writes id 1 into the bytes for this kind
         from scapy.layers.inet import IP, TCP
